@@ -401,6 +401,10 @@ func (sq *Queue) applyConf(conf configs.QueueConfig, silence bool) (*resources.R
 		if err = sq.setTemplate(conf.ChildTemplate); err != nil {
 			return nil, err
 		}
+		// no template of its own: keep using the template of the parent, as a newly added parent queue does
+		if sq.template == nil && sq.parent != nil {
+			sq.template = sq.parent.template
+		}
 	}
 
 	oldMaxResource := sq.maxResource
